@@ -781,9 +781,14 @@ class EquivalenceRule(Rule[CombinatorialClassType, CombinatorialObjectType]):
     ) -> bool:
         return True
 
-    def to_reverse_rule(self, idx: int) -> "EquivalenceRule":
+    def to_reverse_rule(self, idx: int) -> "Rule":
         assert idx == 0
-        return self.original_rule.to_reverse_rule(self.child_idx).to_equivalence_rule()
+        reverse_rule = self.original_rule.to_reverse_rule(self.child_idx)
+        if not reverse_rule.is_equivalence():
+            # The reverse constructor can not be an equivalence, e.g. when two
+            # parameters of the parent map to the same parameter of the child.
+            return reverse_rule
+        return reverse_rule.to_equivalence_rule()
 
     def to_equivalence_rule(self) -> "EquivalenceRule":
         raise NotImplementedError("You don't want to do that! I promise")
